@@ -52,6 +52,10 @@ class C29(Check):
                     case["parent"].append([i, n, rand_val(rng, f)])
                 elif r < 0.8:
                     case["child"].append([i, n, rand_val(rng, f)])
+                elif r < 0.95:
+                    # written by both: first in the parent, then in the child, then in the parent again (same value as the first time)
+                    case["parent"].append([i, n, rand_val(rng, f)])
+                    case["child"].append([i, n, rand_val(rng, f)])
         return case
 
     def gen_cases(self):
@@ -59,7 +63,7 @@ class C29(Check):
 
     def corpus(self):
         return [{"devs": ["D", "B"], "parent": [[0, "d_l", -888], [0, "d_L", 2 ** 63 + 5], [0, "d_Bq", (200, -7)], [1, "b_I", 12345]],
-                 "child": [[0, "d_h", -2], [0, "d_f", 1.5], [0, "d_I", 4000000000], [0, "d_b", -3], [1, "b_Q", 2 ** 64 - 1]]},
+                 "child": [[0, "d_l", 777], [0, "d_h", -2], [0, "d_f", 1.5], [0, "d_I", 4000000000], [0, "d_b", -3], [1, "b_Q", 2 ** 64 - 1]]},
                 {"devs": ["A", "C", "A"], "parent": [[0, "a_q", -5], [1, "a_H", 2 ** 40], [2, "a_x", 0.29]], "child": [[0, "a_B", 200], [1, "c_I", 7], [2, "a_q", 11]]}]
 
     def run_impl(self, case):
@@ -97,7 +101,28 @@ class C29(Check):
             back = [getattr(devs[i], nm) for i, nm, f in allv]
         except Exception as e:      # noqa
             return Err(5, f"reading a device variable in the parent raised {type(e).__name__}: {e}")
-        o = {"child_first": res[1][:n], "child_second": res[1][n:], "parent_back": back, "layout": layout,
+        # ---- third phase: the parent assigns the values of its first phase AGAIN (the child has overwritten some of them in
+        # between); a second spawned child and the parent read everything
+        try:
+            for i, nm, v in case["parent"]:
+                setattr(devs[i], nm, v)
+        except Exception as e:      # noqa
+            return Err(5, f"writing a device variable in the parent (again) raised {type(e).__name__}: {e}")
+        pc, cc = ctx.Pipe()
+        p = ctx.Process(target=c29_devs.child, args=(sg, [("r", i, nm) for i, nm, f in allv], cc))
+        p.start()
+        cc.close()
+        res3 = pc.recv() if pc.poll(300) else ("error", "no answer from the second child process")
+        p.join(60)
+        if p.is_alive():
+            p.kill()
+        if res3[0] != "ok":
+            return Err(5, f"second child process: {res3[1]}")
+        try:
+            back3 = [getattr(devs[i], nm) for i, nm, f in allv]
+        except Exception as e:      # noqa
+            return Err(5, f"reading a device variable in the parent raised {type(e).__name__}: {e}")
+        o = {"child_first": res[1][:n], "child_second": res[1][n:], "parent_back": back, "child_third": res3[1], "parent_third": back3, "layout": layout,
              "size": len(sg.properties), "wkc_pos": sg.__dict__.get("wkc_errors")}
         case["_o"] = o
         return o
@@ -154,6 +179,13 @@ class C29(Check):
             for (i, n, f), got in zip(allv, vals):
                 if not same(got, exp[i, n], f):
                     return f"the {name} process reads device {i} variable {n}:{f} = {got}, expected {exp[i, n]}; {self.describe(case)}"
+        for i, n, v in case["parent"]:
+            exp[i, n] = v
+        for name, vals in (("second child", o["child_third"]), ("parent", o["parent_third"])):
+            for (i, n, f), got in zip(allv, vals):
+                if not same(got, exp[i, n], f):
+                    return (f"after the parent assigned its values again (the child had written others in between), the {name} process reads device {i} "
+                            f"variable {n}:{f} = {got}, expected {exp[i, n]}; {self.describe(case)}")
         # different variables never share storage
         rng_ = sorted((o["layout"][f"{i}.{n}"], o["layout"][f"{i}.{n}"] + SZ[f], f"{i}.{n}") for i, n, f in allv)
         for (a0, a1, na), (b0, b1, nb) in zip(rng_, rng_[1:]):
@@ -167,7 +199,8 @@ class C29(Check):
     def rule(self):
         return ("1-3 device instances out of four classes (formats B H I Q b h i q x l L N f d ? and the padded multi-member formats Bq and HHI, one class derived from another and redefining a variable with a larger "
                 "format); 40% of the variables written in the parent, 40% in a spawned child process that received the pickled ProcessSyncGroup; the child "
-                "reads everything before and after its writes, the parent reads everything back")
+                "reads everything before and after its writes, the parent reads everything back; 15% of the variables are written on both sides; finally "
+                "the parent assigns its first values again and a second spawned child and the parent read everything")
 
     def distribution(self, cases, observed):
         return {"cases": len(cases), "devices": sum(len(c["devs"]) for c in cases), "errors": sum(isinstance(o, Err) for o in observed)}
